@@ -122,6 +122,7 @@ pub fn run_job(job: WireJob) -> Vec<String> {
             act();
         });
         let mut pos = 0usize;
+        let mut closed = false;
         let mut outbuf: Vec<u8> = Vec::new();
         for step in &job.steps {
             let a = step["a"].as_str().unwrap_or("");
@@ -132,7 +133,11 @@ pub fn run_job(job: WireJob) -> Vec<String> {
                     if n == 0 {
                         continue;
                     }
-                    to_plugin.write_all(&stream[pos..pos + n]).await.expect("harness: pipe");
+                    if to_plugin.write_all(&stream[pos..pos + n]).await.is_err() {
+                        // the plugin closed its stdin: its IO loop has ended (that is data, not a harness failure)
+                        closed = true;
+                        break;
+                    }
                     pos += n;
                     ev["n"] = json!(n);
                     ev["pos"] = json!(pos);
@@ -187,7 +192,7 @@ pub fn run_job(job: WireJob) -> Vec<String> {
             ev["out"] = json!(out);
             lines.push(ev.to_string());
         }
-        lines.push(json!({"ev":"end","run":job.run,"leftover":outbuf.len()}).to_string());
+        lines.push(json!({"ev":"end","run":job.run,"leftover":outbuf.len(),"closed":closed}).to_string());
         lines
     })
 }
